@@ -870,6 +870,17 @@ func (e *CEnv) call(ex *CExpr) Value {
 	case "isEOF":
 		need(1)
 		return e.x.isEOF(e.st, ev(0))
+	case "connbuf", "connstream":
+		need(1)
+		iv, ok := ev(0).(*IfaceVal)
+		if !ok || iv.Sym == nil {
+			cfail("%s of a value that is not an abstract connection", name)
+		}
+		i := 0
+		if name == "connstream" {
+			i = 1
+		}
+		return e.x.connGet(e.st, iv, i)
 	case "nonsentinel":
 		need(1)
 		switch v := ev(0).(type) {
